@@ -207,7 +207,7 @@ Record astate := mkA {
   orig : bool;             (* the .dat exists *)
   cfile : option (list snap);  (* the compaction twin _c.dat *)
   tmp : option (list snap);    (* _c.dat.tmp: the twin before it is published (since eb925d1); no reader pattern matches it *)
-  dlock : bool;            (* this process holds the exclusive flock on the DAG definition file (since a924e5c) *)
+  dlock : bool;            (* this process holds the exclusive flock on the start lock file <socket address>.lock (a924e5c, fc081bb) *)
   wclosed : bool;          (* the writer has been closed *)
   sock : sockst }.
 
@@ -265,7 +265,8 @@ Definition last_line (l : list snap) : option snap :=
 
 Definition astep (st : astate) (l : alabel) : option astate :=
   match l with
-  (* agent.Run (since a924e5c): flock(LOCK_EX) on the DAG file before the already-running check, released when the socket listens *)
+  (* agent.Run (a924e5c, fc081bb): flock(LOCK_EX) on <socket address>.lock before the already-running check, released when the
+     socket listens *)
   | LLockDag => match mp st with
                 | MInit => if dlock st then None else Some (with_dlock st true)
                 | _ => None end
@@ -353,7 +354,7 @@ Fixpoint exec (st : astate) (ls : list alabel) : option astate :=
 
 (* ---- what is reported ------------------------------------------------------------------------------- *)
 (* SIGKILL: the process is gone at once; files stay as they are (a stray tmp included); a bound socket becomes a stale file;
-   the kernel releases the flock on the DAG file *)
+   the kernel releases the flock on the start lock file *)
 Definition after_kill (st : astate) : astate :=
   with_dlock (with_sock st (match sock st with SockLive => SockStale | x => x end)) false.
 
@@ -398,7 +399,7 @@ Definition job_guard (r : snap * bool) : guard :=
   if snd r then GRefusedErr
   else match s_ov (fst r) with ORunning => GRefusedRunning | _ => GMinuteGuard end.
 
-(* a new agent on the same DAG: flock on the DAG file (blocks while a LIVE process holds it), probe (client.GetCurrentStatus: a refused connection means "not running"), then
+(* a new agent on the same DAG: flock on the start lock file (blocks while a LIVE process holds it), probe (client.GetCurrentStatus: a refused connection means "not running"), then
    sock.Server.Serve: os.Remove(addr); net.Listen *)
 Definition probe_running (s : sockst) : bool := match s with SockLive => true | _ => false end.
 Definition bind_ok (unlink_first : bool) (s : sockst) : bool :=
